@@ -2,6 +2,10 @@ import Driver.Util
 import ZvbiModel.Export.Model
 import ZvbiModel.Export.Page
 import ZvbiModel.Export.Text
+import ZvbiModel.Export.Html
+import ZvbiModel.Export.Ppm
+import ZvbiModel.Export.Font
+import ZvbiModel.Export.Spec
 /-! Model driver for component `export` (C16); same line protocol as harness/export_harness.c -/
 namespace Zvbi.Driver.Export
 open Zvbi.Driver Zvbi.Export
@@ -30,6 +34,12 @@ def conv (fmt : String) (u : Nat) : Option Bytes :=
     if u < 0x80 then some [u]
     else if u < 0x800 then some [0xC0 + u / 64, 0x80 + u % 64]
     else some [0xE0 + u / 4096, 0x80 + (u / 64) % 64, 0x80 + u % 64]
+
+/-- fonts whose page charset is iso-8859-1 (the ones the check uses) -/
+def htmlFonts : List Int := [0, 1, 2, 3, 4, 5, 7, 16, 33]
+
+/-- glibc iconv UCS-2 -> iso-8859-1 with one byte of output space -/
+def convLatin1 (u : Nat) : Option Nat := if u < 256 then some u else none
 
 def tLetter : Target → String
   | .mem => "m" | .alloc => "a" | .fp => "p" | .file => "f"
@@ -162,6 +172,43 @@ def step (st : DSt) (ws : List String) : DSt × String :=
   | "consts" :: _ => (st, s!"ok tcw=12 tch=10 ccw=16 cch=26 text={textExtent} sizes={sizeNormal},{sizeDoubleWidth},{sizeDoubleHeight},{sizeDoubleSize},{sizeOverTop},{sizeOverBottom},{sizeDoubleHeight2},{sizeDoubleSize2} tgt=1,2,3,4,5 opaque=3")
   | "probe" :: _ =>
     (init, s!"ok wideclip={if currentCfg.wideClip then 1 else 0} nullguard={if currentCfg.nullGuard then 1 else 0} e2big={if currentCfg.printE2big then 1 else 0} atone={if currentCfg.atOneByte then 1 else 0}")
+  | "probehtml" :: _ =>
+    (init, s!"ok titlelt={if currentHtmlCfg.titleLt then 1 else 0} gfxesc={if currentHtmlCfg.gfxEscaped then 1 else 0} italfont={if currentFontClamp then 1 else 0}")
+  | "htmlexp" :: rest =>
+    if rest.length != 8 then (st, "rej parse") else
+    (match allInts rest with
+    | none => (st, "rej parse")
+    | some v =>
+      let g := fun i => v.getD i 0
+      if (v.any (· < 0)) || !(htmlFonts.contains (g 0)) || g 1 < 10 || g 1 > 99999 || (rest.getD 1 "").startsWith "0" || g 2 > 1 || g 3 > 1
+          || g 4 > 1 || g 5 > 0x8FF || g 6 > 0x3F7F || g 7 > 39 then (st, "rej parse") else
+      match st.page with
+      | none => (st, "rej state")
+      | some pg =>
+        let env : HtmlEnv := { gfx := gfxOption (g 1).toNat, color := g 2 == 1, header := g 3 == 1, reveal := g 4 == 1,
+                               creator := s2b "verif", network := none, font := (g 0).toNat, pgno := (g 5).toNat,
+                               subno := (g 6).toNat, screenColor := (g 7).toNat }
+        match htmlOps currentHtmlCfg env convLatin1 pg with
+        | .error f => (st, s!"ok FAULT {repr f}")
+        | .ok ops =>
+          -- `success_implies_exact` / `html_targets_agree`: without injected failures every target delivers `output ops`
+          -- (the list-based write layer is quadratic on outputs of this size, so the driver does not run it here)
+          let d := Zvbi.Export.Spec.output ops
+          (st, s!"ok {d.length} {toHex d}"))
+  | "ppmexp" :: rest =>
+    (match rest with
+    | [a] =>
+      (match parseInt a with
+      | some a =>
+        if !(inRange a 0 1) then (st, "rej parse") else
+        (match st.page with
+        | none => (st, "rej state")
+        | some pg =>
+          let g := ppmGeom pg.columns (a == 1)
+          let hdr := ppmHeader (ppmWidth pg.columns g) (ppmHeight pg.rows g)
+          (st, s!"ok {hdr.length + pg.rows * ppmRowSize pg.columns g} hdr={toHex hdr} px=1"))
+      | none => (st, "rej parse"))
+    | _ => (st, "rej parse"))
   | "begin" :: rest =>
     (match rest with
     | [t, sz, hl, sl] =>
@@ -243,7 +290,7 @@ def step (st : DSt) (ws : List String) : DSt × String :=
         let i := (g 0).toNat * pg.columns + (g 1).toNat
         let fl := (g 4).toNat
         let c : Cell := { unicode := (g 2).toNat, size := (g 3).toNat, flash := (fl / 8) % 2 == 1, conceal := (fl / 16) % 2 == 1,
-                          underline := fl % 2 == 1, bold := (fl / 2) % 2 == 1, foreground := (g 5).toNat, background := (g 6).toNat }
+                          underline := fl % 2 == 1, bold := (fl / 2) % 2 == 1, italic := (fl / 4) % 2 == 1, foreground := (g 5).toNat, background := (g 6).toNat }
         ({ st with page := some { pg with text := pg.text.set i c } }, "ok cell"))
   | "drcs" :: rest =>
     (match rest with
